@@ -4,6 +4,8 @@ XLoop
   * gives deterministic names to tasks the code under test creates without a name (asyncio's default
     'Task-N' counter is process-global, which would make state hashes differ between executions);
   * does not compute state hashes for choice points of a replayed prefix (the explorer never reads them);
+  * `ext_mode` (what C20/C24/C26/C40 use): strictly FIFO ready queue + environment-completed external events and
+    same-instant timers, i.e. only schedules that real asyncio can produce (see __init__);
   * optional `quiescent_hook`: called whenever nothing is runnable at the current virtual instant;
   * optional `fifo_plumbing`: asyncio's own callbacks keep their FIFO order among themselves (see step());
   * optional partial-order reduction: `independent(handle) -> bool` may declare a runnable callback
@@ -14,6 +16,7 @@ XLoop
     harness that uses it compares the reduced search with the full one on small configurations.
 """
 import asyncio
+import heapq
 
 from vf import vloop
 
@@ -28,6 +31,15 @@ class XLoop(vloop.VLoop):
         self.reduced_steps = 0
         self._hidden = ()
         self.quiescent_hook = None  # called when nothing is runnable at the current instant (before time advances)
+        # Realisable-schedule model ("external events"): the ready queue is strictly FIFO, exactly as in asyncio (so the
+        # first step of a freshly created task runs in creation order, before anything queued later).  The only
+        # nondeterminism is the environment's: at every step boundary it may complete one of the pending external events
+        # (a harness body awaiting ext_yield() = I/O of unknown latency) or fire one of the timers that are due at the
+        # current instant; the completion is appended at the END of the ready queue, where real I/O completions,
+        # timers and call_soon_threadsafe land as well.
+        self.ext_mode = False
+        self.ext_auto = False  # no exploration: complete pending external events at once, in creation order
+        self.ext_pending = []
 
     def create_task(self, coro, *, name=None, context=None):
         if name is None:
@@ -49,9 +61,83 @@ class XLoop(vloop.VLoop):
             # object addresses: leave those anonymous so that labels and state hashes stay deterministic
             if args and isinstance(args[0], asyncio.Task) and '_on_completion' not in base:
                 base += f'({args[0].get_name()})'
+            elif args and asyncio.isfuture(args[0]) and '_on_completion' not in base:
+                for entry in (getattr(args[0], '_callbacks', None) or ()):
+                    owner = getattr(entry[0] if isinstance(entry, tuple) else entry, '__self__', None)
+                    if isinstance(owner, asyncio.Task):
+                        base += f'(->{owner.get_name()})'
+                        break
         return base
 
+    def ext_wait(self, label=None):
+        fut = self.create_future()
+        if label is None:
+            t = asyncio.current_task()
+            label = f'ext:{t.get_name() if t is not None else "?"}'
+        self.ext_pending.append((label, fut))
+        return fut
+
+    def _due_timers_to_ready(self):
+        if self.ext_mode:
+            return  # due timers are fired one at a time by the environment (see step)
+        super()._due_timers_to_ready()
+
+    def _ext_options(self):
+        self.ext_pending = [(l, f) for l, f in self.ext_pending if not f.done()]
+        due = sorted((h for h in self._scheduled if not h._cancelled and h._when <= self._vtime), key=lambda h: (h._when, self._label(h)))
+        return self.ext_pending, due
+
+    def _ext_step(self):
+        k = 0
+        ready = ()
+        while True:
+            pend, due = self._ext_options()
+            ready = [h for h in self._ready if not h._cancelled]
+            if len(ready) != len(self._ready):
+                self._ready.clear()
+                self._ready.extend(ready)
+            k = len(pend) + len(due)
+            if k == 0:
+                break
+            n = k + (1 if ready else 0)
+            if self.ext_auto:
+                c = 1 if ready else 0
+            elif n == 1:
+                c = 0
+            else:
+                labels = ('run,' if ready else '') + ','.join([l for l, _ in pend] + ['timer:' + self._label(h) for h in due])
+                c = self.chooser.choose(n, labels, self.full_state())
+            if ready:
+                if c == 0:
+                    break
+                c -= 1
+            if c < len(pend):
+                item = pend[c]
+                self.ext_pending.remove(item)
+                item[1].set_result(None)
+            else:
+                h = due[c - len(pend)]
+                self._scheduled.remove(h)
+                heapq.heapify(self._scheduled)
+                h._scheduled = False
+                self._ready.append(h)
+        if self.quiescent_hook is not None and not ready and k == 0:
+            self.quiescent_hook()
+        saved = self.reorder_ready
+        self.reorder_ready = False
+        try:
+            return vloop.VLoop.step(self)
+        finally:
+            self.reorder_ready = saved
+
     def sched_state(self):
+        if self.ext_mode:
+            live = tuple(self._label(h) for h in self._ready if not h._cancelled)
+            pend = tuple(l for l, f in self.ext_pending if not f.done())
+            due = tuple(sorted(self._label(h) for h in self._scheduled if not h._cancelled and h._when <= self._vtime))
+            timers = tuple(sorted((round(h._when - self._vtime, 9), self._label(h)) for h in self._scheduled
+                                  if not h._cancelled and h._when > self._vtime))
+            return (live, pend, due, timers)
         if not self.fifo_plumbing:
             return super().sched_state()
         # task steps as a set (every order of them is explored), plumbing callbacks in their FIFO order
@@ -66,6 +152,8 @@ class XLoop(vloop.VLoop):
         plumbing) keep asyncio's FIFO order among themselves -- only the oldest one competes with the task steps.
         Real asyncio never reorders two queued callbacks; the explorer's freedom models unknown I/O latency of the
         harness bodies, which are all task steps.  `independent`: see module docstring (applied to the oldest one)."""
+        if self.ext_mode:
+            return self._ext_step()
         if self.quiescent_hook is not None:
             self._due_timers_to_ready()
             if not any(not h._cancelled for h in self._ready):
@@ -186,3 +274,11 @@ def pc(task):
         out.append((fr.f_code.co_name, fr.f_lasti))
         c = c.cr_await if hasattr(c, 'cr_await') else getattr(c, 'gi_yieldfrom', None)
     return tuple(out)
+
+
+async def ext_yield(label=None):
+    """Harness bodies: wait for an external event that the environment completes at a moment of its choosing."""
+    lp = vloop._current
+    if lp is None or not getattr(lp, 'ext_mode', False):
+        raise RuntimeError('ext_yield() outside an XLoop in ext_mode')
+    await lp.ext_wait(label)
